@@ -306,3 +306,56 @@ def split_tokens(d, table, split):
     for s in d.shard_info_iterator(split):
         out += table[str(d.path / s.file_infos[0].file_path)]
     return out
+
+
+def real_tf_anchor():
+    """Concrete anchor with the REAL TensorFlow runtime (sub-process of the thorough tiers): as_tfdataset on tfrec and fb
+    datasets - exactly-once multiset for shuffle on/off and several parallelisms, write order when unshuffled, equality of two
+    passes over the same returned dataset.  Returns a list of problem strings."""
+    import numpy as np
+    from . import common
+    problems = []
+    for ft in ("tfrec", "fb"):
+        with common.scratch_dir("vtrtf_") as tmp:
+            d = fillerlab.make_dataset(tmp / "ds", ft=ft, eps=3)
+            with d.filler() as f:
+                for v in range(11):
+                    f.write_example(values=fillerlab.example(v), split="train")
+                for v in range(100, 103):
+                    f.write_example(values=fillerlab.example(v), split="test")
+            for shuffle in (0, 4):
+                for par in (1, 2, 7):
+                    for bs in (0, 4):
+                        ds = d.as_tfdataset("train", repeat=False, shuffle=shuffle, batch_size=bs, file_parallelism=par, parallelism=par)
+                        passes = []
+                        for _ in range(2):
+                            got = []
+                            for x in ds.as_numpy_iterator():
+                                a = np.asarray(x["a"])
+                                got += [int(a[0])] if a.ndim == 1 else [int(r[0]) for r in a]
+                            passes.append(got)
+                        what = f"as_tfdataset({ft}, shuffle={shuffle}, file_parallelism={par}, batch_size={bs})"
+                        for i, got in enumerate(passes):
+                            if sorted(got) != list(range(11)):
+                                problems.append(f"{what} pass {i + 1}: yields {sorted(got)} instead of exactly 0..10")
+                        if shuffle == 0 and passes[0] != list(range(11)):
+                            problems.append(f"{what}: unshuffled order {passes[0]} is not the write order")
+                        if shuffle == 0 and passes[0] != passes[1]:
+                            problems.append(f"{what}: two unshuffled passes differ")
+    return problems
+
+
+def real_tf_anchor_subprocess():
+    """Run real_tf_anchor in a fresh interpreter with the real TensorFlow (the check process runs with the TF stub)."""
+    import json
+    import subprocess
+    import sys
+    from . import common
+    r = subprocess.run([sys.executable, "-c",
+                        "import json; from vtlib import common; common.import_sedpack(need_tf=True); from vtlib import iterscen; "
+                        "print('RESULT ' + json.dumps(iterscen.real_tf_anchor()))"],
+                       capture_output=True, text=True, timeout=1500, cwd=str(common.VERIF))
+    for line in r.stdout.split("\n"):
+        if line.startswith("RESULT "):
+            return json.loads(line[7:]), None
+    return [], "real-TF anchor sub-process failed: " + r.stderr[-300:]
